@@ -14,7 +14,7 @@ import unitlib as U
 from common import Str, sx
 
 ID = 'C17'
-LEAN_MODULES = ['Cellml.Props.C17', 'Cellml.Tie.ConnDir', 'Cellml.Tie.ConnLoop', 'Cellml.Tie.LoaderRel', 'Cellml.Tie.LoaderComps', 'Cellml.Tie.LoaderParse', 'Cellml.Tie.UnitDefs', 'Cellml.Tie.ModelState', 'Cellml.Tie.ConnLoopClosed', 'Cellml.Tie.LoaderConsts', 'Cellml.Tie.LoaderSym', 'Cellml.Tie.LoaderUnitsOrder', 'Cellml.Tie.GenBWhile', 'Cellml.Tie.GenBUnitDefs', 'Cellml.Tie.LoaderStagesA', 'Cellml.Tie.LoaderStagesB', 'Cellml.Tie.LoaderStagesC', 'Cellml.Tie.LoaderStagesD', 'Cellml.Tie.MathsWalk', 'Cellml.Tie.LoaderGen', 'Cellml.Props.C17Gen', 'Cellml.Tie.AddVars']
+LEAN_MODULES = ['Cellml.Props.C17', 'Cellml.Tie.ConnDir', 'Cellml.Tie.ConnLoop', 'Cellml.Tie.LoaderRel', 'Cellml.Tie.LoaderComps', 'Cellml.Tie.LoaderParse', 'Cellml.Tie.UnitDefs', 'Cellml.Tie.ModelState', 'Cellml.Tie.ConnLoopClosed', 'Cellml.Tie.LoaderConsts', 'Cellml.Tie.LoaderSym', 'Cellml.Tie.LoaderUnitsOrder', 'Cellml.Tie.GenBWhile', 'Cellml.Tie.GenBUnitDefs', 'Cellml.Tie.LoaderStagesA', 'Cellml.Tie.LoaderStagesB', 'Cellml.Tie.LoaderStagesC', 'Cellml.Tie.LoaderStagesD', 'Cellml.Tie.MathsWalk', 'Cellml.Tie.LoaderGen', 'Cellml.Props.C17Gen', 'Cellml.Tie.AddVars', 'Cellml.Tie.AddVarRef']
 N = {'quick': 600, 'thorough': 15000}
 LIMIT = 20.0            # wall seconds allowed to one load_model call
 RULE = ('valid documents from harness/docgen.py (as C01: forests of 1-7 components, depth <= 4, relay chains up to 5 '
